@@ -1,4 +1,4 @@
-import Flurry.Lemmas.SeqOpsCap
+import Flurry.Lemmas.SeqOpsRoom
 /-! # Operation-level lemmas of the sequential model: summary, `step`/`run` refinement
 
 Invariant: `Good m := WF m ∧ InitOk m` (`SeqOpsCore.lean`).
@@ -19,7 +19,8 @@ Invariant: `Good m := WF m ∧ InitOk m` (`SeqOpsCore.lean`).
 * `SeqOpsBulk.lean` (O6): `reserve_*`, `putAll_spec`, `extend_absMap`, `collect_absMap`,
   `clone_absMap`, `mapEq_clone`
 * `SeqOpsCap.lean` (O8): `step_good`, `step_never_shrinks`, `step_removal_never_grows`,
-  `put_grow_only_when`, `no_growth_with_room` -/
+  `put_grow_only_when`, `no_growth_with_room`, `no_growth_with_room_bins`
+* `SeqOpsRoom.lean` (O8): `no_growth_with_room_hash` (hypothesis on the inserted keys only) -/
 namespace Flurry.Seq
 open Flurry Flurry.Gen
 
